@@ -193,6 +193,7 @@ class State:
         self.obj_epoch = {}
         self.draws = {}         # nondet name -> term
         self.notes = []
+        self.track_all = False
 
     def clone(self):
         s = State()
@@ -207,6 +208,7 @@ class State:
         s.draws = dict(self.draws)
         s.notes = list(self.notes)
         s.tid = getattr(self, 'tid', 0)
+        s.track_all = self.track_all
         return s
 
     def alloc(self, v):
@@ -341,6 +343,8 @@ class Exec:
             raise PathEnd('panic', 'nil pointer dereference (store) at %s' % pos)
         if st.obj_epoch.get(p.obj, 0) < st.epoch:
             st.events.append(('shared_write', p.obj, p.path, pos))
+        elif st.track_all:
+            st.events.append(('priv_write', p.obj, p.path, pos))
 
         def upd(v, path):
             if not path:
@@ -615,6 +619,8 @@ class Exec:
         if u == '*':
             if isinstance(x, Ptr) and st.obj_epoch.get(x.obj, 0) < st.epoch:
                 st.events.append(('shared_read', x.obj, x.path, ins.get('pos')))
+            elif isinstance(x, Ptr) and st.track_all:
+                st.events.append(('priv_read', x.obj, x.path, ins.get('pos')))
             self.setreg(fr, ins, self.load(st, x, ins.get('pos')))
         elif u == '!':
             self.setreg(fr, ins, z3.simplify(z3.Not(x)))
